@@ -241,6 +241,26 @@ func runArchive(c *ctx) error {
 			return err
 		}
 	}
+	// a server that starts on the disk state a crash inside the registration leaves (GCA key file present but empty):
+	// archived while unregistered, then registered with a first device, then archived again - the later archive must
+	// carry the key that signed the authorizations beside it
+	{
+		s.Close()
+		s.n++
+		t.Scenario("archive/register/emptykey")
+		s.NewDir(c.root, fmt.Sprintf("srv%d", s.n))
+		if err := os.WriteFile(filepath.Join(s.Dir, "gcaPubKey.dat"), nil, 0644); err != nil {
+			return err
+		}
+		s.Tick(1000)
+		if err := s.Start(); err != nil {
+			return err
+		}
+		a.fetch("unregistered, empty key file")
+		s.Register("gca", "temp", "gca")
+		a.newDeviceWithReport()
+		a.fetch("registered after the empty key file was archived")
+	}
 	// randomized concurrent writers
 	if err := s.fresh("archive/concurrent", 1000); err != nil {
 		return err
